@@ -369,7 +369,31 @@ def replay(ob):
             if not np.allclose(got, want, equal_nan=True):
                 bad.append(f"theta={th.tolist()} phi={ph.tolist()} levels={lv.tolist()} -> {got.tolist()} expected {want.tolist()}")
                 break
-        return {"confirmed": bool(bad), "text": "\n".join([f"kernel mask_edges={wit['mask']} bypass_checks={wit['byp']} theta {wit['dir']}"] + (bad or ["200 random columns agree with the piecewise-linear interpolant"]))}
+        if not bad and not wit["byp"]:
+            # the statement quantifies over blocks whose columns differ in direction: several columns in one call
+            for trial in range(100):
+                n, k = int(rng.integers(2, 6)), int(rng.integers(2, 5))
+                th = np.sort(rng.random((k, n)) * 10, axis=1)
+                if any(len(np.unique(r)) < n for r in th):
+                    continue
+                flip = rng.random(k) < 0.5
+                flip[0], flip[-1] = (wit["dir"] == "dec"), (wit["dir"] != "dec")
+                th = np.where(flip[:, None], th[:, ::-1], th)
+                ph = rng.random((k, n)) * 5 - 2
+                lv = rng.random(5) * 14 - 2
+                got = T.interp_1d_linear(ph, th, lv, mask_edges=wit["mask"], bypass_checks=False)
+                for c in range(k):
+                    o = np.argsort(th[c])
+                    want = np.interp(lv, th[c][o], ph[c][o])
+                    if wit["mask"]:
+                        want = np.where((lv < th[c].min()) | (lv > th[c].max()), np.nan, want)
+                    if not np.allclose(got[c], want, equal_nan=True):
+                        bad.append(f"block of {k} columns with directions {['dec' if f else 'inc' for f in flip]}: column {c} theta={th[c].tolist()} phi={ph[c].tolist()} "
+                                   f"levels={lv.tolist()} -> {got[c].tolist()} expected {want.tolist()}")
+                        break
+                if bad:
+                    break
+        return {"confirmed": bool(bad), "text": "\n".join([f"kernel mask_edges={wit['mask']} bypass_checks={wit['byp']} theta {wit['dir']}"] + (bad or ["200 random columns and 100 mixed-direction blocks agree with the piecewise-linear interpolant"]))}
     if part == "wrapper":
         ph = np.array([[1.0, 2.0, 4.0]])
         th = np.array([[1.0, 10.0, 100.0]])
